@@ -79,6 +79,13 @@ pub struct MCfg {
     pub concurrent_tap_hold: bool,
     /// rapid-event-delay (None = default 5)
     pub rapid_event_delay: Option<u16>,
+    /// how the layers are written (no influence on the meaning): bit i set = layer i is a
+    /// deflayermap; bits 8.. choose its style (every cell listed / `_` for the most frequent
+    /// action at a chosen position / transparent cells left out)
+    pub layermap: u16,
+    /// chords v2 (participants, action), written as `(defchordsv2 (keys) action 50 all-released ())`;
+    /// not covered by the reference model: only C05's concurrent-tap-hold scenario uses them
+    pub chords_v2: Vec<(Vec<u16>, Act)>,
 }
 
 impl MCfg {
